@@ -992,6 +992,13 @@ def _fam_libdist():
         callo = (lambda f: lambda X, y, out: (f(X, y, out=out), out))(f)
         _reg("libdist.%s/out" % kn, callo, lambda rs, k: Xy(rs, k, np.float64) + (np.full(9, 7.0),), writes=(2,))
         _reg("libdist.%s/out_uninitialised_int32" % kn, callo, lambda rs, k: Xy(rs, k, np.int32) + (np.empty(9),), writes=(2,))
+        # a strided out= view (a column of a frames x centers table that already holds other columns): it receives
+        # the distances, the table around it stays as it is, and writing it twice gives the same column twice
+        _reg("libdist.%s/out_column_of_table" % kn, callo,
+             lambda rs, k: (lambda X, y, D: (X, y, D[:, 1 + k % 2]))(*(Xy(rs, k, np.float64) + (rs.rand(9, 4) + 1.0,))), writes=(2,))
+        _reg("libdist.%s/out_column_written_twice" % kn,
+             (lambda f: lambda X, y, out: (f(X, y, out=out).copy(), f(X, y, out=out).copy()))(f),
+             lambda rs, k: (lambda X, y, D: (X, y, D[::2]))(*(Xy(rs, k, np.float64) + (rs.rand(18) + 1.0,))), writes=(2,))
         _reg("libdist.%s/out_f32_F" % kn, callo,
              lambda rs, k: (lambda X, y: (np.asfortranarray(X), y, np.zeros(9)))(*Xy(rs, k, np.float32)), writes=(2,))
 
